@@ -99,6 +99,14 @@ func (w *World) ExpectedRejects(s *Spec) []Exp {
 		if s.Has("pattern") {
 			out = append(out, Exp{Kw: "pattern", Kind: "pattern", Atom: s.Atoms["pattern"]})
 		}
+		for _, kw := range s.Twice {
+			switch kw {
+			case "minLength":
+				out = append(out, Exp{Kw: "minLength (second allOf branch)", Kind: "cmp", Op: "<", Atom: s.Atoms["minLength#2"], Len: true, Chars: true})
+			case "maxLength":
+				out = append(out, Exp{Kw: "maxLength (second allOf branch)", Kind: "cmp", Op: ">", Atom: s.Atoms["maxLength#2"], Len: true, Chars: true})
+			}
+		}
 	case "integer", "number":
 		lo, loEx := normSide(s.Has("minimum"), s.Atoms["minimum"], s.EMin, s.Atoms["exclusiveMinimum"], w.rel(s.Atoms["exclusiveMinimum"], s.Atoms["minimum"]), true)
 		hi, hiEx := normSide(s.Has("maximum"), s.Atoms["maximum"], s.EMax, s.Atoms["exclusiveMaximum"], w.rel(s.Atoms["exclusiveMaximum"], s.Atoms["maximum"]), false)
